@@ -565,7 +565,7 @@ func partC02(a *hcli.Args, rep *report.Report, univName string, u *schema.Univer
 		c.Mounting = mnt
 		cfgs = append(cfgs, c)
 	}
-	s.Bounds = fmt.Sprintf("universe=%s resources=%d; every method x every argument position x its alphabet (one argument deviates at a time; full string alphabet on get keys, finder/action string parameters, created ids) under the default configuration, reduced alphabets under each of %d configuration deviations (tunnelling threshold, lenient, resolver base, mounting)", univName, len(u.Resources), len(cfgs)-1)
+	s.Bounds = fmt.Sprintf("universe=%s resources=%d; every method x every argument position x its alphabet (one argument deviates at a time; full string alphabet on get keys, finder/action string parameters, created ids) under the default configuration, reduced alphabets (thorough: the full ones as well) under each of %d configuration deviations (tunnelling threshold, lenient, resolver base, mounting)", univName, len(u.Resources), len(cfgs)-1)
 	item := 0
 	for ci, cfg := range cfgs {
 		w := NewWorld(u, cfg)
@@ -585,7 +585,7 @@ func partC02(a *hcli.Args, rep *report.Report, univName string, u *schema.Univer
 					return
 				}
 				s.States++
-				for _, p := range append([]argPos{{"none", []*schema.V{nil}}}, positions(a.Gen, r, m, ci == 0)...) {
+				for _, p := range append([]argPos{{"none", []*schema.V{nil}}}, positions(a.Gen, r, m, ci == 0 || a.Thorough())...) {
 					for vi, val := range p.alpha {
 						if p.name != "none" && vi == 0 {
 							continue // the default element is the all-default call
